@@ -495,6 +495,11 @@ func (p *Parser) parseData() (names []string, sequences map[string]string, nchar
 			stopmatrix := false
 			for !stopmatrix {
 				tok2, lit2 := p.scanIgnoreWhitespace()
+				// A sequence name that spells a keyword (GAP, END, etc.)
+				// is still a sequence name in the matrix
+				if isKeyword(tok2) {
+					tok2 = IDENT
+				}
 				switch tok2 {
 				case OPENBRACK:
 					if tok2, lit2, err = p.consumeComment(tok2, lit2); err != nil {
@@ -509,6 +514,11 @@ func (p *Parser) parseData() (names []string, sequences map[string]string, nchar
 					sequence := ""
 					for !stopseq {
 						tok3, lit3 := p.scanIgnoreWhitespace()
+						// A sequence that spells a keyword (GAP, DATA, etc.)
+						// is still a sequence in the matrix
+						if isKeyword(tok3) {
+							tok3 = IDENT
+						}
 						switch tok3 {
 						case IDENT:
 							sequence = sequence + lit3
